@@ -101,6 +101,7 @@ structure Block where
   stmts : List Stmt
   npreds : Nat := 0          -- number of predecessors of the block (value propagation compares it with the arity of a phi)
   doms : List Nat := []      -- the blocks that dominate this one (the pre-pass of value propagation asks whether an assignment comes first)
+  conds : List Nat := []     -- `get_join_conditions`: the blocks ending in an if statement on the paths from the immediate dominator to this block
   deriving Inhabited
 
 structure Cfg where
